@@ -25,6 +25,7 @@ type traceEntry struct {
 	n         int
 	lvlBefore int
 	tag       string
+	altModel  *Model
 }
 
 type ndEvent struct {
@@ -95,6 +96,8 @@ type Exec struct {
 	atExit        Value
 	schedState    *sched
 	floatCalls    []floatCall
+	model         *Model // a model of the current path condition, or nil
+	cacheHits     int
 	observes      []observation
 	lenient       int
 	mutexes       map[*Value]*mutexState
@@ -216,7 +219,21 @@ func (x *Exec) decideVal(fr *frame, c *Term, val uint64, hasVal bool) bool {
 		return e.taken
 	}
 	x.h.Obligations++
-	rt := x.s.CheckWith(c)
+	// counterexample cache: one side may be known satisfiable from the current model
+	known := -1
+	if x.model != nil {
+		if v, ok := x.f.Eval(c, x.model); ok {
+			known = int(v)
+			x.cacheHits++
+		}
+	}
+	var rt, rf SatResult
+	var mt, mf *Model
+	if known == 1 {
+		rt, mt = Sat, x.model
+	} else {
+		rt, mt = x.checkModel(c)
+	}
 	if rt == Unknown {
 		x.h.Unknowns++
 	}
@@ -227,7 +244,11 @@ func (x *Exec) decideVal(fr *frame, c *Term, val uint64, hasVal bool) bool {
 		x.h.Discharged++
 		return false
 	}
-	rf := x.s.CheckWith(x.f.Not(c))
+	if known == 0 {
+		rf, mf = Sat, x.model
+	} else {
+		rf, mf = x.checkModel(x.f.Not(c))
+	}
 	if rf == Unknown {
 		x.h.Unknowns++
 	}
@@ -240,15 +261,42 @@ func (x *Exec) decideVal(fr *frame, c *Term, val uint64, hasVal bool) bool {
 	}
 	// both feasible: fork, true side first
 	x.h.Forks++
-	e := traceEntry{kind: 'b', taken: true, val: val, hasVal: hasVal}
+	e := traceEntry{kind: 'b', taken: true, val: val, hasVal: hasVal, altModel: mf}
 	x.pushAssert(&e, c)
 	x.trace = append(x.trace, e)
 	x.pos++
 	x.asserted = x.pos
+	x.model = mt
 	if len(x.trace) > x.eng.cfg.MaxTrace {
 		abortf("decision depth %d exceeded (unwinding bound)", x.eng.cfg.MaxTrace)
 	}
 	return true
+}
+
+// checkModel: is PC && c satisfiable? On sat also returns a model of it.
+func (x *Exec) checkModel(c *Term) (SatResult, *Model) {
+	if c.IsFalse() {
+		return Unsat, nil
+	}
+	x.s.Push()
+	x.s.Assert(c)
+	r := x.s.CheckPoison(x.s.Check())
+	var m *Model
+	if r == Sat && !x.eng.cfg.NoCache {
+		m = newModel(x.s.Model(x.ndVars()))
+	}
+	x.s.Pop()
+	return r, m
+}
+
+func (x *Exec) ndVars() []*Term {
+	var vars []*Term
+	for _, e := range x.ndlog {
+		if e.v != nil {
+			vars = append(vars, e.v)
+		}
+	}
+	return vars
 }
 
 func (x *Exec) choice(n int, tag string) int {
@@ -299,12 +347,22 @@ func (x *Exec) assume(c *Term) {
 		}
 		return
 	}
-	r := x.s.CheckWith(c)
-	if r == Unsat {
-		panic(pathEnd{"assume infeasible"})
+	holds := false
+	if x.model != nil {
+		if v, ok := x.f.Eval(c, x.model); ok && v == 1 {
+			holds = true
+			x.cacheHits++
+		}
 	}
-	if r == Unknown {
-		x.h.Unknowns++
+	if !holds {
+		r, m := x.checkModel(c)
+		if r == Unsat {
+			panic(pathEnd{"assume infeasible"})
+		}
+		if r == Unknown {
+			x.h.Unknowns++
+		}
+		x.model = m
 	}
 	e := traceEntry{kind: 'a'}
 	x.pushAssert(&e, c)
@@ -438,6 +496,8 @@ func (x *Exec) backtrack() bool {
 				e.flipped = true
 				x.s.PopTo(e.lvlBefore)
 				x.asserted = i
+				x.model = e.altModel
+				e.altModel = nil
 				return true
 			}
 		case 'c':
@@ -445,6 +505,7 @@ func (x *Exec) backtrack() bool {
 				e.val++
 				x.s.PopTo(e.lvlBefore)
 				x.asserted = i
+				x.model = nil
 				return true
 			}
 		}
@@ -565,6 +626,17 @@ func (x *Exec) runPath(fn *ssa.Function) {
 		x.runThreads(fn)
 		completed = true
 	}()
+	if pl := os.Getenv("GOSYM_PATHLOG"); pl != "" {
+		f, _ := os.OpenFile(pl, os.O_APPEND|os.O_CREATE|os.O_WRONLY, 0o644)
+		var cs []string
+		for _, e := range x.ndlog {
+			if e.Kind == "choice" {
+				cs = append(cs, fmt.Sprint(e.Value))
+			}
+		}
+		fmt.Fprintf(f, "%s %s\n", x.h.Name, strings.Join(cs, ","))
+		f.Close()
+	}
 	if completed {
 		x.h.Completed++
 		for t := range x.reached {
